@@ -62,6 +62,28 @@ pub(crate) fn length_matches_format(message: &[u32]) -> bool {
     }
 }
 
+/// Parity check of the PI formats: the CRC-24 of a DF17/DF18 squitter must equal its PI field,
+/// for a DF11 all-call reply all but the low 7 bits (interrogator code) must agree.
+pub(crate) fn parity_is_valid(message: &[u32]) -> bool {
+    let Some(df) = range_value(message, 1, 5) else {
+        return false;
+    };
+    if !matches!(df, 11 | 17 | 18) {
+        return true;
+    }
+    let len = (message.len() * 4) as u32;
+    match range_value(message, len - 23, len) {
+        Some(pi) => {
+            let syndrome = get_crc(message, df) ^ pi;
+            match df {
+                11 => syndrome >> 7 == 0,
+                _ => syndrome == 0,
+            }
+        }
+        None => false,
+    }
+}
+
 /// Calculate the reminder of the message
 ///
 /// # Arguments
